@@ -510,6 +510,71 @@ def oracles(ck, pg, ses):
         except Exception as e:  # noqa
             ck.fail_case({**sig0, "clause": "route refused", "route": "constructor(**to_dict())"}, {"args": sig_args(b), "error": repr(e)[:200]})
     _class_routes(ck, pg, ses, ck.n(60, 400))
+    _reused_arguments(ck, pg, ses, ck.n(150, 1200))
+
+
+def _reused_arguments(ck, pg, ses, n):
+    """The route "the same argument OBJECTS, used for a second construction" (C05: isotherms built from the same content by any route have the
+    same identifier): a program that builds two isotherms from the same variables (material as a name, a DICTIONARY or a Material instance —
+    also one that names a registered material —, metadata, data as lists / arrays / one table, one model instance) gets equal isotherms.  No
+    copies in between: a constructor that consumes one of its arguments (finding S58-C05: the material setter popped `name` from the caller's
+    dictionary, so the second isotherm had a nameless material) fails here."""
+    import numpy as np
+    import pandas as pd
+    from pygaps.core.baseisotherm import BaseIsotherm as B
+    from pygaps.modelling import get_isotherm_model
+    rng = ck.rng
+    for i in range(n):
+        ses.reset()
+        a, _u = _valid_call(rng)
+        mat = gen_material(rng, False)
+        if isinstance(mat, dict) and "name" not in mat and rng.random() < 0.8:
+            mat = {"name": rng.choice(MAT_NAMES), **mat}                   # mostly the documented shape: a dictionary with a name
+        a["material"] = mat
+        a.update({k: v for k, v in gen_meta(rng, False).items() if k not in RESERVED_META})
+        cls = rng.choice(["base", "base", "point", "point", "model"])
+        real = {k: realise(pg, v) for k, v in a.items()}
+        if rng.random() < 0.3:
+            real["m"] = real.pop("material")
+        ctor = B
+        if cls == "point":
+            ps, ls = _frame_case(rng, False)
+            kind = rng.choice(["lists", "arrays", "table"])
+            if kind == "lists":
+                real.update(pressure=list(ps), loading=list(ls))
+            elif kind == "arrays":
+                real.update(pressure=np.array(ps), loading=np.array(ls))
+            else:
+                real.update(isotherm_data=pd.DataFrame({"p": ps, "n": ls, "extra": [float(j) for j in range(len(ps))]}), pressure_key="p", loading_key="n")
+            if rng.random() < 0.5:
+                real["branch"] = rng.choice(["ads", "des", "guess", [rng.choice([0, 1]) for _ in ps]])
+            ctor = pg.PointIsotherm
+        elif cls == "model":
+            real["model"] = get_isotherm_model("Henry", parameters={"K": np.float64(2.0)}, rmse=0.0, pressure_range=(0.0, 1.0), loading_range=(0.0, 2.0))
+            real["branch"] = rng.choice(["ads", "des"])
+            ctor = pg.ModelIsotherm
+        sig = {"class": cls, "section": "constructor"}
+        shown = {**sig_args(a), "<material passed as>": "m" if "m" in real else "material",
+                 "<data arguments>": {k: (v if isinstance(v, (str, list)) else type(v).__name__) for k, v in real.items() if k not in a and k != "m"}}
+        try:
+            first = ctor(**real)
+            d1, id1 = first.to_dict(), first.iso_id
+        except Exception:  # noqa
+            ck.count(("reuse-refused", i), nontrivial=False, bucket="construct oracle: re-used arguments (first call refused)")
+            continue
+        ck.count(("reuse", cls, type(mat).__name__, i), bucket="construct oracle: re-used arguments")
+        try:
+            second = ctor(**real)
+            d2, id2 = second.to_dict(), second.iso_id
+        except Exception as e:  # noqa
+            ck.fail_case({**sig, "clause": "same content, different identifier", "route": "the same argument objects, second construction"},
+                         {"args": shown, "second construction": repr(e)[:200]})
+            continue
+        if id1 != id2 or not isogen.same_value(d1, d2) or first.iso_id != id1:
+            held = real.get("m", real.get("material"))
+            ck.fail_case({**sig, "clause": "same content, different identifier", "route": "the same argument objects, second construction"},
+                         {"args": shown, "first": repr(d1)[:300], "second": repr(d2)[:300], "ids": [id1, id2, first.iso_id],
+                          "material argument after the calls": repr(held)[:200] if isinstance(held, dict) else type(held).__name__})
 
 
 def _safe_dict(iso):
